@@ -464,7 +464,8 @@ def check(pid, tier):
 
     exit_code = 0
     lines_out = []
-    if undecided or unstable:
+    driver_gap = (wit or {}).get('excluded_relevant') or []
+    if undecided or unstable or driver_gap:
         exit_code = 2
     if failures:
         exit_code = 1
@@ -487,6 +488,8 @@ def check(pid, tier):
         lines_out.append(f'UNDECIDED property={pid} unit={r.name}: {r.reason}')
     for u in unstable:
         lines_out.append(f'UNDECIDED property={pid} unstable: {u}')
+    for d in driver_gap:
+        lines_out.append(f"UNDECIDED property={pid} witness driver {d} does not compile against this tree and was left out: {(wit.get('excluded_because') or '')[:300]!r}")
 
     p = props_text(pid) or {}
     cov = {
